@@ -219,7 +219,7 @@ def HistMismatch.toJson (m : HistMismatch) : Json :=
 /-- One-input-at-a-time history; every step is held `hold` ticks. Cells whose rule is `always`
 are excluded from the comparison (they never settle; see `iterateCheck`). -/
 def searchHistory (core : CoreProg) (circ : Circuit) (inputs : List InputBinding) (obs : List Observation)
-    (ren : Sig → Sig) (seed : UInt64) (steps hold : Nat) : Nat × List HistMismatch :=
+    (ren : Sig → Sig) (seed : UInt64) (steps hold : Nat) (cellProbe : List (Nat × List Nat × Sig) := []) : Nat × List HistMismatch :=
   let nIn := inputs.length
   let pool := programConstants core
   let rec go (fuel : Nat) (s : UInt64) (k : Nat) (vals : List I32) (mem : Nat → I32) (outs : Array SigMap)
@@ -241,9 +241,20 @@ def searchHistory (core : CoreProg) (circ : Circuit) (inputs : List InputBinding
       let prevEnv : Env := { env0 with input := prevInput }
       let prevVals := evalNodes core.nodes prevEnv
       let newVals := evalNodes core.nodes env0
+      let outs' := runTicks circ inp outs hold
+      let g : Nat → SigMap := fun p => outs'.getD p []
+      -- Power-on: the first step starts from the all-zero state, and while the zeros are still travelling a cell may
+      -- see its enable positive and latch a transient. Pasting a blueprint is not an input history: the content the
+      -- circuit holds once the first valuation has settled is accepted as the cell's initial content (only at step 0,
+      -- only for cells whose place in the circuit is known, and only if the primary value does not fit).
+      let probed (m : Nat) : List I32 :=
+        if k != 0 then [] else
+        match cellProbe.find? (fun (m', _, _) => m' == m) with
+        | some (_, es, ty) => [es.foldl (fun acc e => acc + (g e).get ty) 0]
+        | none => []
       -- per cell: the acceptable next values (primary first)
       let cands : List (List I32) := (List.range core.mems.size).map (fun m =>
-        match core.mems[m]? with
+        (match core.mems[m]? with
         | some cell =>
           match cell.writes with
           | [.gated d e] =>
@@ -251,11 +262,9 @@ def searchHistory (core : CoreProg) (circ : Circuit) (inputs : List InputBinding
             let nowZero := (argVal core.nodes newVals e) == 0
             if wasOn && nowZero && argVal core.nodes newVals d != memF m then [memF m, argVal core.nodes newVals d] else [memF m]
           | _ => [memF m]
-        | none => [memF m])
+        | none => [memF m]) ++ (probed m).filter (fun v => v != memF m))
       -- all combinations (cells are few)
       let combos : List (List I32) := cands.foldr (fun opts acc => opts.flatMap (fun v => acc.map (fun rest => v :: rest))) [[]]
-      let outs' := runTicks circ inp outs hold
-      let g : Nat → SigMap := fun p => outs'.getD p []
       let hist' := hist ++ [bind.map (fun (b, v) => (b.name, v.toInt))]
       let vals0 := newVals
       let av := fun a => (argVal core.nodes vals0 a).toInt
